@@ -164,7 +164,7 @@ def check(prog: Program, res: Result, tier: str) -> None:
         "comparison masks are piecewise constant in the model value",
         "numpy element-wise functions have their textbook derivatives",
     ]
-    res.floors = {"GRAD-deriv": 10, "REG-exh": 10, "DOM-lb": 8, "FG-agree": 4}
+    res.floors = {"GRAD-deriv": 10, "REG-exh": 10, "DOM-lb": 8, "FG-agree": 5, "KR": 3, "EO-1": 4}
     setup = prog.func("gcp.fg_setup.setup")
     mi = prog.modules["pyttb.gcp.fg_setup"]
     consts, constvals = _module_consts(prog, "pyttb.gcp.handles")
@@ -288,6 +288,20 @@ def check(prog: Program, res: Result, tier: str) -> None:
             res.undecided("DOM-lb", fn, ddesc, where, "; ".join(why))
 
     _fg_agree(prog, res)
+    # the exact gradient goes through tensor.mttkrps: its helpers follow the F / reverse-Khatri-Rao convention
+    from . import eo_common as E
+    helpers = {"tensor.tensor.mttkrps", "tensor.mttv_left", "tensor.mttv_mid"}
+    E.kr(prog, res, lambda fi: fi.short in helpers, exempt=set())
+    E.eo1(prog, res, lambda fi: fi.short in helpers)
+    fg = prog.func("gcp.fg.evaluate")
+    desc = "the gradient tensor is pushed through mttkrps with the model's own factor list"
+    c = [x for x in ast.walk(fg.node) if isinstance(x, ast.Call) and isinstance(x.func, ast.Attribute) and x.func.attr == "mttkrps"]
+    if c and c[0].args and ast.unparse(c[0].args[0]) == f"{fg.params()[0]}.factor_matrices":
+        res.ok("FG-agree", fg.short, desc, prog.loc(fg, c[0]))
+    elif c:
+        res.bad("FG-agree", fg.short, desc, prog.loc(fg, c[0]), f"mttkrps receives {ast.unparse(c[0].args[0]) if c[0].args else 'nothing'}")
+    else:
+        res.undecided("FG-agree", fg.short, desc, prog.loc(fg))
 
 
 def _shared_terms(prog, fh, gh, bind):
